@@ -891,13 +891,13 @@ def mon_c04(w, F, vd):
                 if code == 0:
                     if f[3] != "ok" or f[4] != bool(sp) or f[4] is None:
                         vd.bad("C04.accept_outcome", "CONNACK 0 sp=%d gave %s %r" % (sp, f[3], f[4]))
-                    if st != "connected" and w.ops_done[first_connack.step][0] == "rx":
+                    if st in ("idle", "connecting") and w.ops_done[first_connack.step][0] == "rx":
                         vd.bad("C04.state_after_accept", "protocol.state is %s after CONNACK 0" % st)
                 else:
                     nontriv = True
                     if f[3] != "err" or type(f[4]).__name__ != "MQTTStateError":
                         vd.bad("C04.refuse_outcome", "CONNACK code %d gave %s %s" % (code, f[3], type(f[4]).__name__))
-                    if st != "idle" and w.ops_done[first_connack.step][0] == "rx":
+                    if st in ("connecting", "connected") and w.ops_done[first_connack.step][0] == "rx":
                         vd.bad("C04.state_after_refuse", "protocol.state is %s after CONNACK code %d" % (st, code))
         elif r.fires:
             f = r.fires[0]
@@ -967,7 +967,7 @@ def mon_c04(w, F, vd):
                     vd.bad("C04.session_mode_at_loss", "%s #%d still pending after a connection opened with cleanStart=True was lost (%s)" % (
                         ri.kind, ri.rid, e.d["phase"]))
         st = dict(F.step_end[e.step].d["states"]).get(e.c) if e.step in F.step_end else None
-        if st is not None and st != "idle":
+        if st in ("connecting", "connected"):
             vd.bad("C04.not_idle_after_loss", "protocol.state is %s after the connection was lost" % st)
         had = bool(handlers_at(w, e) & 1)
         got = notif.get(e.c, [])
